@@ -44,6 +44,8 @@ FUNCS = [
     ("htp/bstr.c", "bstr_chr"),
     ("htp/bstr.c", "bstr_rchr"),
     ("htp/bstr.c", "bstr_to_lowercase"),
+    ("htp/htp_connection.c", "htp_conn_track_inbound_data"),
+    ("htp/htp_connection.c", "htp_conn_track_outbound_data"),
     ("htp/htp_request.c", "htp_connp_req_buffer"),
     ("htp/htp_response.c", "htp_connp_res_buffer"),
     ("htp/htp_request.c", "htp_connp_req_clear_buffer"),
@@ -1097,10 +1099,23 @@ class Fn:
         used_as_array = set()
         self.find_array_use(d, used_as_array)
         self.prescan_struct = True
+        referenced = set()
+
+        def refs(n):
+            if n.get("kind") == "DeclRefExpr":
+                referenced.add(n["referencedDecl"]["id"])
+            for x in n.get("inner", []) or []:
+                if isinstance(x, dict):
+                    refs(x)
+        refs(d)
         for c in d["inner"]:
+            if c["kind"] == "ParmVarDecl" and is_ptr(c["type"]) and c["id"] not in referenced and "name" in c:
+                self.decl_params.append(("unused", c["name"], None))     # a pointer the body never mentions
+                continue
             if c["kind"] == "ParmVarDecl":
                 nm = lean_name(c["name"])
-                if ctype(c["type"]) in ("htp_list_array_t *", "struct htp_list_array_t *", "htp_connp_t *", "struct htp_connp_t *"):
+                if ctype(c["type"]) in ("htp_list_array_t *", "struct htp_list_array_t *", "htp_connp_t *", "struct htp_connp_t *",
+                                       "htp_conn_t *", "struct htp_conn_t *"):
                     self.var[c["id"]] = ("struct", nm)
                     self.decl_params.append(("struct", nm, None))
                 elif ctype(c["type"]) == "void *" and c["id"] not in used_as_array:
